@@ -382,6 +382,14 @@ func (c *Cluster) opFairCycle(s *Step) {
 			progress.Add(1)
 			synctest.Wait()
 			c.runWakeups()
+			if c.fairQuiescentAt == 0 && c.cfg.Profile == "C06" && c.quiescent() {
+				// everybody reports idle: the network would slow down now. Whatever
+				// was accepted must be committed at this very moment, not merely by
+				// the end of the cycle (checked by the profile's final hook).
+				c.fairQuiescentAt = c.fairCount
+				c.stats.probe("c06-quiescent-inside-a-cycle")
+				return
+			}
 		}
 		if a.running() && len(selectablePeers(a)) == 0 && a.state() == _state.Babbling {
 			a.node.SimMonologue()
